@@ -1724,6 +1724,10 @@ func (ctx Ctx) forStmt(s *ast.ForStmt) coq.ForLoopExpr {
 		if len(postBlock.Names) > 0 {
 			ctx.unsupported(s.Post, "post cannot bind names")
 		}
+		if _, ok := postBlock.Expr.(coq.LoggingStmt); ok {
+			// only a comment is left of it, and the post is an expression
+			ctx.unsupported(s.Post, "logging call as the post statement of a loop")
+		}
 		post = postBlock.Expr
 	}
 
